@@ -125,7 +125,7 @@ def fnVt (a : List (String × String)) : String :=
     | none => "invalid"
   | none => bad "vt"
 
-def treeCmds : List String := ["rawwrite", "write", "rotate", "flush", "flushcommit", "merge", "move", "drop", "clear", "ingest", "reopen"]
+def treeCmds : List String := ["rawwrite", "bumpctr", "write", "rotate", "flush", "flushcommit", "merge", "move", "drop", "clear", "ingest", "reopen"]
 def treeQueries : List String := ["get", "scan", "admissible", "choose", "hwm", "digest", "dump"]
 
 structure DS where
